@@ -73,6 +73,12 @@ def mk_epoch(jde):
     return e
 
 
+def record(ctx, name, dev, inp):
+    """Largest deviation seen, kept apart for the inputs that lie in a listed known-finding region."""
+    known = inp.get('polecap', 90.0) <= 2e-3
+    ctx.deviation(name + ('@known_finding_region' if known else ''), dev)
+
+
 def tie(ctx, name, args, out, klass=None):
     ctx.case(name, [float(a) for a in args], out, q=None, klass=klass or name)
 
@@ -131,8 +137,8 @@ def check_equatorial(ctx, name, jd0, jd1, lon, lat, lon2, lat2, klass, wide=True
     ctx.predicate('no_exception', v0 is not None, inp, 'zero interval', klass)
     if v0 is not None:
         dev = S.vsep(S.dirv(*v0), u)
-        ctx.deviation(name + '_zero_interval', dev)
         z_inp = dict(inp); z_inp['polecap'] = asin_cap(lat, lat)
+        record(ctx, name + '_zero_interval', dev, z_inp)
         ctx.predicate('zero_interval_identity', dev <= TOL, z_inp, {'out': v0, 'dev_deg': dev}, klass)
     v = prec(ctx, name, jd0, jd1, lon, lat)
     ctx.predicate('no_exception', v is not None, inp, 'forward', klass)
@@ -141,7 +147,7 @@ def check_equatorial(ctx, name, jd0, jd1, lon, lat, lon2, lat2, klass, wide=True
     inp = dict(inp); inp['polecap'] = min(inp['polecap'], asin_cap(lat, v[1]))
     if name == 'equatorial':
         dev = S.vsep(S.dirv(*v), S.matvec(M, u))
-        ctx.deviation('equatorial_is_rotation', dev)
+        record(ctx, 'equatorial_is_rotation', dev, inp)
         ctx.predicate('equatorial_is_rotation', dev <= TOL, inp, {'out': v, 'oracle': w, 'dev_deg': dev}, klass)
     ctx.predicate('declination_range', -90.0 <= v[1] <= 90.0, inp, v, klass)
     # there and back
@@ -149,7 +155,7 @@ def check_equatorial(ctx, name, jd0, jd1, lon, lat, lon2, lat2, klass, wide=True
     ctx.predicate('no_exception', b is not None, inp, {'leg': 'back', 'from': v}, klass)
     if b is not None and name == 'equatorial':
         dev = S.vsep(S.dirv(*b), u)
-        ctx.deviation('equatorial_there_and_back', dev)
+        record(ctx, 'equatorial_there_and_back', dev, inp)
         ctx.predicate('equatorial_there_and_back', dev <= TOL, inp, {'fwd': v, 'back': b, 'dev_deg': dev}, klass)
     # angle between two stars
     q = prec(ctx, name, jd0, jd1, lon2, lat2)
@@ -157,7 +163,7 @@ def check_equatorial(ctx, name, jd0, jd1, lon, lat, lon2, lat2, klass, wide=True
         w2 = S.lonlat(S.matvec(M, S.dirv(lon2, lat2)))
         a_inp = dict(inp); a_inp['polecap'] = min(asin_cap(lat, w[1]), asin_cap(lat2, w2[1]))
         dev = abs(S.sep_ref(lon, lat, lon2, lat2) - S.sep_ref(v[0], v[1], q[0], q[1]))
-        ctx.deviation(name + '_preserves_angle', dev)
+        record(ctx, name + '_preserves_angle', dev, a_inp)
         ctx.predicate('preserves_angle', dev <= TOL, a_inp, {'dev_deg': dev}, klass)
 
 
@@ -181,12 +187,12 @@ def check_pm(ctx, name, jd0, jd1, lon, lat, pm, klass):
     inp = dict(inp); inp['polecap'] = min(inp['polecap'], asin_cap(lat_s, v[1], name), asin_cap(lat, v0[1], name))
     if vs is not None:
         dev = S.vsep(S.dirv(*v), S.dirv(*vs))
-        ctx.deviation(name + '_proper_motion_shift', dev)
+        record(ctx, name + '_proper_motion_shift', dev, inp)
         ctx.predicate('proper_motion_is_start_shift', dev <= TOL, inp, {'with_pm': v, 'shifted_start': vs, 'dev_deg': dev}, klass)
     # rigid: the displacement of the result equals the displacement of the start, mu * dt on the sphere
     d_out = S.sep_ref(v[0], v[1], v0[0], v0[1])
     d_in = S.sep_ref(lon_s, lat_s, lon, lat)
-    ctx.deviation(name + '_proper_motion_linear', abs(d_out - d_in))
+    record(ctx, name + '_proper_motion_linear', abs(d_out - d_in), inp)
     ctx.predicate('proper_motion_linear', abs(d_out - d_in) <= TOL, inp, {'moved_out': d_out, 'moved_in': d_in}, klass)
 
 
@@ -199,7 +205,7 @@ def check_ecliptical(ctx, jd0, jd1, lon, lat, lon2, lat2, klass):
     ctx.predicate('no_exception', v0 is not None and v is not None, inp, 'ecliptical', klass)
     if v0 is not None:
         dev = S.vsep(S.dirv(*v0), u)
-        ctx.deviation('ecliptical_zero_interval', dev)
+        record(ctx, 'ecliptical_zero_interval', dev, inp)
         ctx.predicate('zero_interval_identity', dev <= TOL, inp, {'out': v0, 'dev_deg': dev}, klass)
     if v is None:
         return
@@ -208,13 +214,13 @@ def check_ecliptical(ctx, jd0, jd1, lon, lat, lon2, lat2, klass):
     ctx.predicate('no_exception', b is not None, inp, {'leg': 'back', 'from': v}, klass)
     if b is not None:
         dev = S.vsep(S.dirv(*b), u)
-        ctx.deviation('ecliptical_there_and_back', dev)
+        record(ctx, 'ecliptical_there_and_back', dev, inp)
         ctx.predicate('ecliptical_there_and_back', dev <= 1e-6, inp, {'fwd': v, 'back': b, 'dev_deg': dev}, klass)
     q = prec(ctx, 'ecliptical', jd0, jd1, lon2, lat2)
     if q is not None:
         a_inp = dict(inp); a_inp['polecap'] = min(inp['polecap'], 90.0 - abs(lat2), 90.0 - abs(q[1]))
         dev = abs(S.sep_ref(lon, lat, lon2, lat2) - S.sep_ref(v[0], v[1], q[0], q[1]))
-        ctx.deviation('ecliptical_preserves_angle', dev)
+        record(ctx, 'ecliptical_preserves_angle', dev, a_inp)
         ctx.predicate('preserves_angle', dev <= TOL, a_inp, {'dev_deg': dev}, klass)
 
 
@@ -254,7 +260,7 @@ def check_route(ctx, jd0, jd1, lon, lat, klass):
     if None in (v, lb0, lb1, ad):
         return
     dev = S.vsep(S.dirv(*v), S.dirv(*ad))
-    ctx.deviation('route_equatorial_vs_ecliptical', dev)
+    record(ctx, 'route_equatorial_vs_ecliptical', dev, inp)
     ctx.predicate('route_agreement', dev <= 1e-4, inp, {'equatorial': v, 'via_ecliptic': ad, 'dev_deg': dev}, klass)
     ctx.predicate('obliquity_range', 22.0 < e0 < 25.0 and 22.0 < e1 < 25.0, inp, [e0, e1], klass)
 
@@ -289,7 +295,7 @@ def check_newcomb(ctx, jd0, jd1, lon, lat, klass):
     if a is None or b is None:
         return
     dev = S.vsep(S.dirv(*a), S.dirv(*b))
-    ctx.deviation('newcomb_vs_fk5', dev)
+    record(ctx, 'newcomb_vs_fk5', dev, inp)
     ctx.predicate('newcomb_within_0.005_of_fk5', dev <= 0.005, inp, {'fk5': a, 'newcomb': b, 'dev_deg': dev}, klass)
 
 
@@ -443,7 +449,7 @@ def generate(ctx, shard=0, nshards=1):
         for T in [x / 4.0 for x in range(-80, 81)]:
             obliquity(ctx, jd(T))
 
-    n = ctx.n(9000, 450000) // nshards
+    n = ctx.n(60000, 3000000) // nshards
     for i in range(n):
         lon, lat, k = rand_dir(rng)
         if hot_lat and rng.random() < 0.25:
